@@ -105,7 +105,7 @@ def main():
                       "/verif/kani/Cargo.toml); forwarding shims only",
             "baseline_off_cmd": "cd /repo && cargo nextest run --workspace --no-fail-fast --tool-config-file "
                                 "pb:/w/lib/nextest.toml --profile pb --test-threads 8 --offline",
-            "source_commits": ["95d4ee54fd", "729da7e7a6"],
+            "source_commits": ["95d4ee54fd", "729da7e7a6", "ea684ee7c2"],
             "add_only": True,
         },
         "engines": [
@@ -116,7 +116,8 @@ def main():
             {"name": "engine-M", "path": "/verif/lib/mir_engine.py + /verif/lib/mirsmt + /verif/lib/mir_jobs.py + "
                                          "/verif/replay-common",
              "serves_properties": [c["property_id"] for c in checks if "engine-M" in c["engine"]],
-             "kind_free_text": "symbolic executor over rustc's textual MIR (--emit=mir of /repo's crate, nightly) "
+             "kind_free_text": "symbolic executor over rustc's textual MIR (--emit=mir of /repo's crates radix-common "
+                               "and radix-engine, nightly) "
                                "producing integer SMT queries for z3; native replay binary for counterexamples and "
                                "translator self-test"},
         ],
